@@ -473,6 +473,9 @@ def run(rep, ix, tier):
     from . import C01
     C01.check_pad(rep, ix, ix.module(C01.M))
     rep.floor('R-C01-PAD', 6)
+    # a file is split into logical files only if every conformant visible record and segment position is accepted
+    C01.check_envelope(rep, ix, ix.module(C01.M), only=('VisibleRecord._read', 'LogicalRecordPosition.__init__'))
+    rep.floor('R-C01-ENVELOPE', 10)
     rep.floor('R-C07-VALUE', 25)
     rep.floor('R-C03-CD', 30)
     rep.floor('R-C03-ORDER', 25)
